@@ -127,6 +127,10 @@ pub fn install_quiet_panic_hook() {
             .location()
             .map(|l| format!("{}:{}", l.file(), l.line()))
             .unwrap_or_default();
+        if msg.contains("unsafe precondition") || msg.contains("cannot unwind") {
+            // the process is about to abort (e.g. a checked unsafe precondition): say why
+            eprintln!("panicked (cannot unwind, aborting): {msg} @ {loc}");
+        }
         LAST_PANIC.with(|p| *p.borrow_mut() = Some(format!("{msg} @ {loc}")));
     }));
 }
@@ -171,7 +175,23 @@ pub fn start_watchdog(limit_secs: u64) {
     });
 }
 
-fn run_case<C>(test: &(impl Fn(&C) -> TestResult + Sync), case: &C) -> TestResult {
+/// With VERIF_TRACE_CASES=<dir> every case is written to <dir>/current-<thread>.json before it
+/// is executed, so that a supervisor can find the case that made the process abort (sanitizer
+/// report, checked unsafe precondition) - such deaths cannot be caught in-process.
+fn trace_case<C: Serialize>(sub: &str, case: &C) {
+    static DIR: std::sync::OnceLock<Option<String>> = std::sync::OnceLock::new();
+    static NEXT: std::sync::atomic::AtomicUsize = std::sync::atomic::AtomicUsize::new(0);
+    thread_local! {
+        static ME: usize = NEXT.fetch_add(1, Ordering::Relaxed);
+    }
+    let Some(dir) = DIR.get_or_init(|| std::env::var("VERIF_TRACE_CASES").ok()) else { return };
+    let me = ME.with(|m| *m);
+    let v = json!({"check": sub, "case": case});
+    let _ = std::fs::write(format!("{dir}/current-{me}.json"), serde_json::to_vec(&v).unwrap_or_default());
+}
+
+fn run_case<C: Serialize>(sub: &str, test: &(impl Fn(&C) -> TestResult + Sync), case: &C) -> TestResult {
+    trace_case(sub, case);
     HEARTBEAT.fetch_add(1, Ordering::Relaxed);
     match catch(|| test(case)) {
         Ok(r) => r,
@@ -404,7 +424,7 @@ impl Report {
                 match serde_json::from_value::<C>(case) {
                     Ok(c) => {
                         stats.evaluations += 1;
-                        match run_case(test, &c) {
+                        match run_case(sub, test, &c) {
                             Ok(_) => self.out.push(format!("replay: case passes ({})", sub)),
                             Err(f) => {
                                 // strict: known findings are still failures in replay mode
@@ -438,7 +458,7 @@ impl Report {
             };
             stats.evaluations += 1;
             *stats.classes.entry("corpus-regression").or_default() += 1;
-            match run_case(test, &c) {
+            match run_case(sub, test, &c) {
                 Ok(info) => {
                     if info.nontrivial {
                         stats.nontrivial.insert(digest_of(&c));
@@ -508,6 +528,9 @@ impl Report {
                                 cases: per_shard as u32,
                                 failure_persistence: None,
                                 max_shrink_iters: 20000,
+                                // a time budget on shrinking only affects how small the replay
+                                // case gets, never whether a failure is reported
+                                max_shrink_time: 30_000,
                                 max_global_rejects: 1 << 20,
                                 ..Config::default()
                             };
@@ -524,7 +547,7 @@ impl Report {
                                     // another shard failed: finish quickly
                                     return Ok(());
                                 }
-                                let r = run_case(test, &case);
+                                let r = run_case(sub, test, &case);
                                 match r {
                                     Ok(info) => {
                                         if !st.failed {
@@ -622,7 +645,7 @@ impl Report {
         }
         if let Some((case, reason)) = first_failure {
             // re-execute the shrunk case once to get the final reason text
-            let reason = match run_case(&test, &case) {
+            let reason = match run_case(sub, &test, &case) {
                 Err(f) => f.msg,
                 Ok(_) => format!("{reason} (shrunk case passed on re-execution: flaky)"),
             };
@@ -673,7 +696,7 @@ impl Report {
                                 let mut failure = None;
                                 for (i, c) in part.iter().enumerate() {
                                     st.evaluations += 1;
-                                    match run_case(test, c) {
+                                    match run_case(sub, test, c) {
                                         Ok(info) => {
                                             if info.nontrivial {
                                                 st.nontrivial.insert(digest_of(c));
@@ -786,6 +809,12 @@ impl Report {
             })
             .collect();
         let all_exhaustive = !self.subs.is_empty() && self.subs.iter().all(|s| s.exhaustive);
+        // statistics of the libFuzzer campaign the check script ran before this binary (thorough)
+        let fuzz: Value = std::env::var("VERIF_FUZZ_STATS_JSON")
+            .ok()
+            .and_then(|p| std::fs::read_to_string(p).ok())
+            .and_then(|s| serde_json::from_str(&s).ok())
+            .unwrap_or(Value::Null);
         let ev = json!({
             "property_id": self.ctx.id,
             "tier": self.ctx.tier.name(),
@@ -800,6 +829,7 @@ impl Report {
                 "sub_checks": subs,
                 "known_findings_reported": self.known_hits.iter().collect::<Vec<_>>(),
                 "inconclusive": self.inconclusive,
+                "libfuzzer_campaign": fuzz,
             },
             "assumptions": self.assumptions,
             "wall_s": wall,
